@@ -27,7 +27,7 @@ def wFS : FS := fun n =>
   else .missing
 
 /-- root `/srv`, hide `/srv/secret.txt`, browse on -/
-def wCfg : Cfg := ⟨str "/w", str "/srv", [str "/srv/secret.txt"], [], true, false, true, [], [], []⟩
+def wCfg : Cfg := ⟨str "/w", str "/srv", [str "/srv/secret.txt"], [], true, false, true, [], [], [], []⟩
 
 /-- the file itself is refused … -/
 theorem witness_file_is_hidden : (serve wFS wCfg (str "/secret.txt") (str "/secret.txt")).1 = .notFound := by decide
@@ -51,7 +51,7 @@ def wFS2 : FS := fun n =>
   else .missing
 
 /-- root `/srv`, index name `sub`, hide `/srv/sub/secret.txt`, browse on -/
-def wCfg2 : Cfg := ⟨str "/w", str "/srv", [str "/srv/sub/secret.txt"], [str "sub"], true, false, true, [], [], []⟩
+def wCfg2 : Cfg := ⟨str "/w", str "/srv", [str "/srv/sub/secret.txt"], [str "sub"], true, false, true, [], [], [], []⟩
 
 /-- the filter of cfacd08 on `GET /`, which lists `/srv/sub` (the index name is a directory):
     it shows `secret.txt`, whose path is hidden -/
